@@ -20,7 +20,7 @@ Definition zombie (a : actor) : Prop :=
 Definition H2 (s : kstate) : Prop :=
   forall c ac, get s c = Some ac -> reg s c ac -> a_parent ac <> rNone ->
     (a_parent ac = rGuard /\ lookup rGuard (registry s) = None) \/
-    exists pu pa, lookup (a_parent ac) (registry s) = Some pu /\ get s pu = Some pa /\ In (a_tok ac) (a_children pa).
+    exists pu pa, lookup (a_parent ac) (registry s) = Some pu /\ get s pu = Some pa /\ In (a_tok ac) (a_children pa) /\ (pu < c)%nat.
 Definition H3 (s : kstate) : Prop :=
   forall u a, get s u = Some a -> reg s u a \/ a_st a = Terminated \/ zombie a.
 (* H4: the guard object (uid 0, address /user) is registered or terminated *)
@@ -28,7 +28,10 @@ Definition H4 (s : kstate) : Prop :=
   exists g, get s guard_uid = Some g /\ a_tok g = rGuard /\ (reg s guard_uid g \/ a_st g = Terminated).
 (* H5: nobody else is ever registered under the guard's address *)
 Definition H5 (s : kstate) : Prop := forall v, lookup rGuard (registry s) = Some v -> v = guard_uid.
-Definition Inv (s : kstate) : Prop := RI s /\ H2 s /\ H3 s /\ H4 s /\ H5 s.
+(* H6: the guard is the only object without a parent; H7: no object claims the null address *)
+Definition H6 (s : kstate) : Prop := forall u a, get s u = Some a -> a_parent a = rNone -> u = guard_uid.
+Definition H7 (s : kstate) : Prop := forall u a, get s u = Some a -> a_tok a <> rNone.
+Definition Inv (s : kstate) : Prop := RI s /\ H2 s /\ H3 s /\ H4 s /\ H5 s /\ H6 s /\ H7 s.
 
 (* quiet steps: registry, object set, addresses, parents and children tables unchanged; objects that are neither
    registered nor terminated are untouched *)
@@ -67,13 +70,13 @@ Proof. destruct (lookup t l) as [v|]; [|right; discriminate]. destruct (Nat.eq_d
 
 Lemma Inv_qk s s' : Inv s -> qk s s' -> Inv s'.
 Proof.
-  intros (HR & HH2 & HH3 & HH4 & HH5) Q. pose proof Q as (R & L & K). split; [|split; [|split; [|split]]].
+  intros (HR & HH2 & HH3 & HH4 & HH5 & HH6 & HH7) Q. pose proof Q as (R & L & K). split; [|split; [|split; [|split; [|split; [|split]]]]].
   - intros t u H. rewrite R in H. destruct (HR t u H) as (a & Ha & Ht). destruct (K u a Ha) as (a' & G & T & _). exists a'. split; [exact G|congruence].
   - intros c ac' Hc Hreg Hp. destruct (qk_back _ _ _ _ Q Hc) as (ac & Ha & T & P & C & _).
     unfold reg in *. rewrite R in *. rewrite T in Hreg. rewrite P in Hp.
-    destruct (HH2 c ac Ha Hreg Hp) as [[E1 E2]|(pu & pa & Hl & Hg & Hin)].
+    destruct (HH2 c ac Ha Hreg Hp) as [[E1 E2]|(pu & pa & Hl & Hg & Hin & Hlt)].
     + left. split; [congruence|exact E2].
-    + right. destruct (K pu pa Hg) as (pa' & G' & _ & _ & C' & _). exists pu, pa'. rewrite P. split; [exact Hl|]. split; [exact G'|]. rewrite C', T. exact Hin.
+    + right. destruct (K pu pa Hg) as (pa' & G' & _ & _ & C' & _). exists pu, pa'. rewrite P. split; [exact Hl|]. split; [exact G'|]. split; [rewrite C', T; exact Hin|exact Hlt].
   - intros u a' Hu. destruct (qk_back _ _ _ _ Q Hu) as (a & Ha & T & P & C & S & U).
     unfold reg. rewrite R, T. destruct (HH3 u a Ha) as [H|[H|H]]; [left; exact H|right; left; auto|].
     destruct (lookup_dec (registry s) (a_tok a) u) as [E|E]; [left; exact E|].
@@ -81,6 +84,8 @@ Proof.
   - destruct HH4 as (g & Hg & Tg & Sg). destruct (K _ g Hg) as (g' & G' & T' & _ & _ & S' & _). exists g'. split; [exact G'|]. split; [congruence|].
     unfold reg in *. rewrite R, T'. destruct Sg as [Sg|Sg]; [left; exact Sg|right; auto].
   - intros v Hv. rewrite R in Hv. apply HH5. exact Hv.
+  - intros u a' Hu Hp. destruct (qk_back _ _ _ _ Q Hu) as (a & Ha & T & P & _). apply (HH6 u a Ha). congruence.
+  - intros u a' Hu. destruct (qk_back _ _ _ _ Q Hu) as (a & Ha & T & _). rewrite T. apply (HH7 u a Ha).
 Qed.
 
 Lemma qk_put s u a0 b :
@@ -289,16 +294,16 @@ Proof. intros HR H. destruct (HR t u H) as (a & Ha & _). eapply get_lt; exact Ha
 
 (* a new object that fails to register (the address is taken) is never reachable *)
 Lemma Inv_append_dead s x :
-  Inv s -> a_st x = Terminated -> Inv (set_actors s (actors s ++ [x])).
+  Inv s -> a_st x = Terminated -> a_parent x <> rNone -> a_tok x <> rNone -> Inv (set_actors s (actors s ++ [x])).
 Proof.
-  intros (HR & HH2 & HH3 & HH4 & HH5) Ht. set (s2 := set_actors s (actors s ++ [x])).
+  intros (HR & HH2 & HH3 & HH4 & HH5 & HH6 & HH7) Ht Hxp Hxt. set (s2 := set_actors s (actors s ++ [x])).
   assert (Rg : registry s2 = registry s) by reflexivity.
-  split; [|split; [|split; [|split]]].
+  split; [|split; [|split; [|split; [|split; [|split]]]]].
   - intros t0 v H. rewrite Rg in H. destruct (HR t0 v H) as (a & Ha & Hta). exists a. split; [|exact Hta].
     unfold s2. rewrite get_app_old by (eapply get_lt; exact Ha). exact Ha.
   - intros c ac Hc Hreg Hp. unfold reg in Hreg. rewrite Rg in *. destruct (get_app_inv _ _ _ _ Hc) as [[Hlt Hc']|[-> ->]].
-    + destruct (HH2 c ac Hc' Hreg Hp) as [E|(pu & pa & Hl & Hg & Hin)]; [left; exact E|right].
-      exists pu, pa. split; [exact Hl|]. split; [|exact Hin]. unfold s2. rewrite get_app_old by (eapply get_lt; exact Hg). exact Hg.
+    + destruct (HH2 c ac Hc' Hreg Hp) as [E|(pu & pa & Hl & Hg & Hin & Hlt')]; [left; exact E|right].
+      exists pu, pa. split; [exact Hl|]. split; [|split; [exact Hin|exact Hlt']]. unfold s2. rewrite get_app_old by (eapply get_lt; exact Hg). exact Hg.
     + exfalso. pose proof (RI_lt _ _ _ HR Hreg). lia.
   - intros u a Hu. unfold reg. rewrite Rg. destruct (get_app_inv _ _ _ _ Hu) as [[Hlt Hu']|[-> ->]].
     + exact (HH3 u a Hu').
@@ -306,6 +311,8 @@ Proof.
   - destruct HH4 as (g & Hg & Tg & Sg). exists g. split; [|split; [exact Tg|exact Sg]].
     unfold s2. rewrite get_app_old by (eapply get_lt; exact Hg). exact Hg.
   - intros v Hv. rewrite Rg in Hv. apply HH5. exact Hv.
+  - intros u a Hu Hp. destruct (get_app_inv _ _ _ _ Hu) as [[Hlt Hu']|[-> ->]]; [exact (HH6 u a Hu' Hp)|contradiction].
+  - intros u a Hu. destruct (get_app_inv _ _ _ _ Hu) as [[Hlt Hu']|[-> ->]]; [exact (HH7 u a Hu')|exact Hxt].
 Qed.
 
 Lemma Inv_stop s u self t s' o p : stop_if_parent_gone s u self t = (s', o, p) -> Inv s -> Inv s' /\ (regu u s -> regu u s').
@@ -332,15 +339,17 @@ Proof.
   clear Ep HI Ha Hu. revert I1 Ha1 Hu1 Ru. generalize s1. clear s1 A1 R1. intros s1 I1 Ha1 Hu1 Ru.
   set (n := length (actors s1)). set (x := new_actor t self r inst). set (s2 := set_actors s1 (actors s1 ++ [x])).
   assert (Rg2 : registry s2 = registry s1) by reflexivity.
+  assert (Hsn : self <> rNone) by (destruct I1 as (_ & _ & _ & _ & _ & _ & HH7'); rewrite <- Hself; eapply HH7'; exact Ha1).
+  assert (Htn : t <> rNone) by (unfold rNone; lia).
   destruct (lookup t (registry s1)) as [w|] eqn:Elt.
   - intros H; inversion H; subst. split.
-    + apply Inv_append_dead; [exact I1|reflexivity].
+    + apply Inv_append_dead; [exact I1|reflexivity|exact Hsn|exact Htn].
     + intros R0. destruct (Ru R0) as (b & Hb & Rb). exists b. split; [|exact Rb]. rewrite get_app_old by (eapply get_lt; exact Hb). exact Hb.
   - intros H.
     match type of H with stop_if_parent_gone ?s5 _ _ _ = _ => cut (Inv s5 /\ (regu u s -> regu u s5)) end.
     { intros [I5 R5]. destruct (Inv_stop _ _ _ _ _ _ _ H I5) as [I6 R6]. split; [exact I6|intros R0; apply R6; apply R5; exact R0]. }
     clear H.
-    destruct I1 as (HR & HH2 & HH3 & HH4 & HH5).
+    destruct I1 as (HR & HH2 & HH3 & HH4 & HH5 & HH6 & HH7).
     assert (Hult : (u < n)%nat) by (eapply get_lt; exact Ha1).
     set (s3 := set_registry s2 (set_key t n (registry s1))).
     set (f := fun b : actor => w_children (insert_sorted t (a_children b)) b).
@@ -355,7 +364,7 @@ Proof.
     { unfold s4, upd_actor. rewrite G3, G2u. reflexivity. }
     assert (Tne : forall t0 v, lookup t0 (registry s1) = Some v -> t0 <> t) by (intros t0 v Hl ->; congruence).
     assert (I4 : Inv s4).
-    { split; [|split; [|split; [|split]]].
+    { split; [|split; [|split; [|split; [|split; [|split]]]]].
       - intros t0 v Hl. rewrite Rg4 in Hl. apply lookup_set_key in Hl. destruct Hl as [[-> ->]|Hl]; [exists x; split; [exact G4n|reflexivity]|].
         destruct (HR t0 v Hl) as (b & Hb & Tb). destruct (Nat.eq_dec v u) as [->|Hne].
         + rewrite Ha1 in Hb. inversion Hb; subst b. exists (f a). split; [exact G4u|exact Tb].
@@ -366,7 +375,7 @@ Proof.
         + (* the new object *) rewrite G4n in Hc. inversion Hc; subst ac. cbn [a_parent a_tok x new_actor] in *.
           destruct Hu1 as [Hr|(Hg & Hn & _)].
           * right. unfold reg in Hr. rewrite Hself in Hr. exists u, (f a). split; [rewrite lookup_set_key_other by (eapply Tne; exact Hr); exact Hr|].
-            split; [exact G4u|]. cbn [a_children f w_children]. apply in_insert_sorted_self.
+            split; [exact G4u|]. split; [cbn [a_children f w_children]; apply in_insert_sorted_self|exact Hult].
           * left. split; [exact Hg|]. rewrite lookup_set_key_other by (unfold rGuard; lia). exact Hn.
         + (* an old registered object *)
           assert (Hcn : (c < n)%nat) by (eapply RI_lt; [exact HR|exact Hreg]).
@@ -375,12 +384,12 @@ Proof.
             - rewrite G4u in Hc. inversion Hc; subst ac. exists a. auto.
             - rewrite G4o in Hc by exact Hne. unfold s2 in Hc. rewrite get_app_old in Hc by exact Hcn. exists ac. auto. }
           destruct Hc1 as (ac1 & Hc1 & T1 & P1). rewrite <- T1 in Hreg. rewrite <- P1 in Hp.
-          destruct (HH2 c ac1 Hc1 Hreg Hp) as [[E1 E2]|(pu & pa & Hl & Hg & Hin)].
+          destruct (HH2 c ac1 Hc1 Hreg Hp) as [[E1 E2]|(pu & pa & Hl & Hg & Hin & Hpc)].
           * left. split; [congruence|]. rewrite lookup_set_key_other by (unfold rGuard; lia). exact E2.
           * right. rewrite <- P1, <- T1. destruct (Nat.eq_dec pu u) as [->|Hne].
             -- rewrite Ha1 in Hg. inversion Hg; subst pa. exists u, (f a). split; [rewrite lookup_set_key_other by (eapply Tne; exact Hl); exact Hl|].
-               split; [exact G4u|]. cbn [a_children f w_children]. apply in_insert_sorted_keep. exact Hin.
-            -- exists pu, pa. split; [rewrite lookup_set_key_other by (eapply Tne; exact Hl); exact Hl|]. split; [|exact Hin].
+               split; [exact G4u|]. split; [cbn [a_children f w_children]; apply in_insert_sorted_keep; exact Hin|exact Hpc].
+            -- exists pu, pa. split; [rewrite lookup_set_key_other by (eapply Tne; exact Hl); exact Hl|]. split; [|split; [exact Hin|exact Hpc]].
                rewrite G4o by exact Hne. unfold s2. rewrite get_app_old by (eapply get_lt; exact Hg). exact Hg.
       - intros v b Hv. unfold reg. rewrite Rg4. destruct (Nat.eq_dec v u) as [->|Hne].
         + rewrite G4u in Hv. inversion Hv; subst b. cbn [a_tok a_st f w_children].
@@ -393,7 +402,14 @@ Proof.
           destruct Sg as [Sg|Sg]; [left; rewrite lookup_set_key_other by (eapply Tne; exact Sg); exact Sg|right; exact Sg].
         + exists g. split; [rewrite G4o by auto; unfold s2; rewrite get_app_old by (eapply get_lt; exact Hg); exact Hg|]. split; [exact Tg|].
           unfold reg in *. rewrite Rg4. destruct Sg as [Sg|Sg]; [left; rewrite lookup_set_key_other by (eapply Tne; exact Sg); exact Sg|right; exact Sg].
-      - intros v Hv. rewrite Rg4 in Hv. rewrite lookup_set_key_other in Hv by (unfold rGuard; lia). apply HH5. exact Hv. }
+      - intros v Hv. rewrite Rg4 in Hv. rewrite lookup_set_key_other in Hv by (unfold rGuard; lia). apply HH5. exact Hv.
+      - intros v b Hv Hp. destruct (Nat.eq_dec v u) as [->|Hne].
+        + rewrite G4u in Hv. inversion Hv; subst b. apply (HH6 u a Ha1). exact Hp.
+        + rewrite G4o in Hv by exact Hne. unfold s2 in Hv. destruct (get_app_inv _ _ _ _ Hv) as [[Hlt Hv']|[-> ->]]; [exact (HH6 v b Hv' Hp)|].
+          cbn [a_parent x new_actor] in Hp. contradiction.
+      - intros v b Hv. destruct (Nat.eq_dec v u) as [->|Hne].
+        + rewrite G4u in Hv. inversion Hv; subst b. apply (HH7 u a Ha1).
+        + rewrite G4o in Hv by exact Hne. unfold s2 in Hv. destruct (get_app_inv _ _ _ _ Hv) as [[Hlt Hv']|[-> ->]]; [exact (HH7 v b Hv')|exact Htn]. }
     assert (Q : qk s4 (deliver_sys s4 t self SLaunch)) by (apply qk_deliver_sys; apply I4).
     split; [eapply Inv_qk; [exact I4|exact Q]|].
     intros R0. apply (regu_qk u _ _ Q). destruct (Ru R0) as (b & Hb & Rb). rewrite Ha1 in Hb. inversion Hb; subst b.
@@ -409,8 +425,8 @@ Proof.
   assert (Gu : get (upd_actor s u f) u = Some (f a)) by (apply get_upd_actor_same; exact Ea).
   assert (Go : forall v, v <> u -> get (upd_actor s u f) v = get s v) by (intros v Hv; unfold upd_actor; rewrite Ea; apply get_put_other; auto).
   assert (Rg : registry (upd_actor s u f) = registry s) by (unfold upd_actor; rewrite Ea; reflexivity).
-  destruct HI as (HR & HH2 & HH3 & HH4 & HH5). split.
-  - split; [|split; [|split; [|split]]].
+  destruct HI as (HR & HH2 & HH3 & HH4 & HH5 & HH6 & HH7). split.
+  - split; [|split; [|split; [|split; [|split; [|split]]]]].
     + intros t v Hl. rewrite Rg in Hl. destruct (HR t v Hl) as (b & Hb & Tb). destruct (Nat.eq_dec v u) as [->|Hne].
       * rewrite Ea in Hb. inversion Hb; subst b. exists (f a). split; [exact Gu|exact Tb].
       * exists b. split; [rewrite Go by exact Hne; exact Hb|exact Tb].
@@ -418,11 +434,11 @@ Proof.
       assert (Hc1 : exists ac1, get s c = Some ac1 /\ a_tok ac1 = a_tok ac /\ a_parent ac1 = a_parent ac).
       { destruct (Nat.eq_dec c u) as [->|Hne]; [rewrite Gu in Hc; inversion Hc; subst ac; exists a; auto|rewrite Go in Hc by exact Hne; exists ac; auto]. }
       destruct Hc1 as (ac1 & Hc1 & T1 & P1). rewrite <- T1 in Hreg. rewrite <- P1 in Hp.
-      destruct (HH2 c ac1 Hc1 Hreg Hp) as [[E1 E2]|(pu & pa & Hl & Hg & Hin)]; [left; split; [congruence|exact E2]|right].
+      destruct (HH2 c ac1 Hc1 Hreg Hp) as [[E1 E2]|(pu & pa & Hl & Hg & Hin & Hpc)]; [left; split; [congruence|exact E2]|right].
       rewrite <- P1, <- T1. destruct (Nat.eq_dec pu u) as [->|Hne].
-      * rewrite Ea in Hg. inversion Hg; subst pa. exists u, (f a). split; [exact Hl|]. split; [exact Gu|].
+      * rewrite Ea in Hg. inversion Hg; subst pa. exists u, (f a). split; [exact Hl|]. split; [exact Gu|]. split; [|exact Hpc].
         cbn [a_children f w_children]. apply in_remove_ref_other; [|exact Hin]. intros E. rewrite E in Hreg. congruence.
-      * exists pu, pa. split; [exact Hl|]. split; [rewrite Go by exact Hne; exact Hg|exact Hin].
+      * exists pu, pa. split; [exact Hl|]. split; [rewrite Go by exact Hne; exact Hg|split; [exact Hin|exact Hpc]].
     + intros v b Hv. unfold reg. rewrite Rg. destruct (Nat.eq_dec v u) as [->|Hne].
       * rewrite Gu in Hv. inversion Hv; subst b. cbn [a_tok a_st f w_children]. destruct (Hu a eq_refl) as [H|H]; [left; exact H|right; left; exact H].
       * rewrite Go in Hv by exact Hne. exact (HH3 v b Hv).
@@ -430,6 +446,8 @@ Proof.
       * rewrite Ea in Hg. inversion Hg; subst g. exists (f a). split; [exact Gu|]. split; [exact Tg|]. unfold reg in *. rewrite Rg. exact Sg.
       * exists g. split; [rewrite Go by auto; exact Hg|]. split; [exact Tg|]. unfold reg in *. rewrite Rg. exact Sg.
     + intros v Hv. rewrite Rg in Hv. apply HH5. exact Hv.
+    + intros v b Hv Hp. destruct (Nat.eq_dec v u) as [->|Hne]; [rewrite Gu in Hv; inversion Hv; subst b; exact (HH6 u a Ea Hp)|rewrite Go in Hv by exact Hne; exact (HH6 v b Hv Hp)].
+    + intros v b Hv. destruct (Nat.eq_dec v u) as [->|Hne]; [rewrite Gu in Hv; inversion Hv; subst b; exact (HH7 u a Ea)|rewrite Go in Hv by exact Hne; exact (HH7 v b Hv)].
   - intros (b & Hb & Rb). rewrite Ea in Hb. inversion Hb; subst b. exists (f a). split; [exact Gu|]. unfold reg in *. rewrite Rg. exact Rb.
 Qed.
 
@@ -438,19 +456,19 @@ Lemma Inv_unregister s u a :
   Inv s -> get s u = Some a -> reg s u a -> a_st a = Terminated -> a_children a = [] ->
   Inv (set_registry s (remove_key (a_tok a) (registry s))).
 Proof.
-  intros (HR & HH2 & HH3 & HH4 & HH5) Ha Hr Hst Hch. set (s' := set_registry s (remove_key (a_tok a) (registry s))).
+  intros (HR & HH2 & HH3 & HH4 & HH5 & HH6 & HH7) Ha Hr Hst Hch. set (s' := set_registry s (remove_key (a_tok a) (registry s))).
   assert (G : forall v, get s' v = get s v) by reflexivity.
   assert (Rg : registry s' = remove_key (a_tok a) (registry s)) by reflexivity.
-  split; [|split; [|split; [|split]]].
+  split; [|split; [|split; [|split; [|split; [|split]]]]].
   - intros t v Hl. rewrite Rg in Hl. apply lookup_remove_key in Hl. rewrite G. apply HR. exact Hl.
   - intros c ac Hc Hreg Hp. rewrite G in Hc. unfold reg in Hreg. rewrite Rg in *.
     assert (Hne : a_tok ac <> a_tok a) by (intros E; rewrite E, lookup_remove_key_self in Hreg; discriminate).
     rewrite lookup_remove_key_other in Hreg by exact Hne.
-    destruct (HH2 c ac Hc Hreg Hp) as [[E1 E2]|(pu & pa & Hl & Hg & Hin)].
+    destruct (HH2 c ac Hc Hreg Hp) as [[E1 E2]|(pu & pa & Hl & Hg & Hin & Hpc)].
     + left. split; [exact E1|]. destruct (Z.eq_dec rGuard (a_tok a)) as [E|E]; [rewrite E; apply lookup_remove_key_self|rewrite lookup_remove_key_other by exact E; exact E2].
     + right. destruct (Z.eq_dec (a_parent ac) (a_tok a)) as [E|E].
       * exfalso. rewrite E in Hl. unfold reg in Hr. rewrite Hr in Hl. inversion Hl; subst pu. rewrite Ha in Hg. inversion Hg; subst pa. rewrite Hch in Hin. destruct Hin.
-      * exists pu, pa. split; [rewrite lookup_remove_key_other by exact E; exact Hl|]. split; [rewrite G; exact Hg|exact Hin].
+      * exists pu, pa. split; [rewrite lookup_remove_key_other by exact E; exact Hl|]. split; [rewrite G; exact Hg|split; [exact Hin|exact Hpc]].
   - intros v b Hv. rewrite G in Hv. unfold reg. rewrite Rg. destruct (HH3 v b Hv) as [H|[H|H]]; [|right; left; exact H|right; right; exact H].
     destruct (Z.eq_dec (a_tok b) (a_tok a)) as [E|E].
     + unfold reg in *. rewrite E, Hr in H. inversion H; subst v. rewrite Ha in Hv. inversion Hv; subst b. right. left. exact Hst.
@@ -461,6 +479,8 @@ Proof.
     + rewrite E, Hr in Sg. inversion Sg; subst u. unfold guard_uid in *. rewrite Ha in Hg. inversion Hg; subst g. right. exact Hst.
     + left. rewrite lookup_remove_key_other by exact E. exact Sg.
   - intros v Hv. rewrite Rg in Hv. apply lookup_remove_key in Hv. apply HH5. exact Hv.
+  - intros v b Hv Hp. rewrite G in Hv. exact (HH6 v b Hv Hp).
+  - intros v b Hv. rewrite G in Hv. exact (HH7 v b Hv).
 Qed.
 
 (* ---------- the traversal ---------- *)
@@ -820,7 +840,7 @@ Proof.
     apply N. eapply Inv_qk; [eapply Inv_qk; [exact HI|exact Q1]|]. eapply qk_deliver_user; [eapply RI_qk; [apply HI|exact Q1]|exact E].
   - destruct (terminate s rGuard t g) as [s1 o1] eqn:E. intros H; inversion H; subst. apply N. eapply Inv_qk; [exact HI|]. eapply qk_terminate; [apply HI|exact E].
   - destruct (spawn s guard_uid rGuard t r) as [[s1 o1] p] eqn:E. intros H; inversion H; subst. apply N.
-    pose proof HI as (_ & _ & _ & (g & Hg & Tg & Sg) & HH5).
+    pose proof HI as (_ & _ & _ & (g & Hg & Tg & Sg) & HH5 & _).
     assert (D : reg s guard_uid g \/ (rGuard = rGuard /\ lookup rGuard (registry s) = None /\ a_st g = Terminated)).
     { destruct Sg as [Sg|Sg]; [left; exact Sg|]. destruct (lookup rGuard (registry s)) as [v|] eqn:El; [|right; auto].
       left. unfold reg. rewrite Tg, El. rewrite (HH5 v El). reflexivity. }
@@ -842,12 +862,14 @@ End T.
 
 Lemma Inv_init : Inv kinit.
 Proof.
-  split; [apply RI_init|]. split; [|split; [|split]].
+  split; [apply RI_init|]. split; [|split; [|split; [|split; [|split]]]].
   - intros c ac Hc Hreg Hp. right. destruct c as [|[|c]]; cbn in Hc; try (destruct c; discriminate); inversion Hc; subst ac; cbn in Hp; [contradiction|].
-    exists 0%nat. eexists. split; [reflexivity|]. split; [reflexivity|]. left. reflexivity.
+    exists 0%nat. eexists. split; [reflexivity|]. split; [reflexivity|]. split; [left; reflexivity|lia].
   - intros u a Hu. left. destruct u as [|[|u]]; cbn in Hu; try (destruct u; discriminate); inversion Hu; subst a; reflexivity.
   - eexists. split; [reflexivity|]. split; [reflexivity|left; reflexivity].
   - intros v Hv. cbn in Hv. inversion Hv. reflexivity.
+  - intros u a Hu Hp. destruct u as [|[|u]]; cbn in Hu; try (destruct u; discriminate); inversion Hu; subst a; [reflexivity|discriminate].
+  - intros u a Hu. destruct u as [|[|u]]; cbn in Hu; try (destruct u; discriminate); inversion Hu; subst a; discriminate.
 Qed.
 
 (* C05, hierarchy: in every reachable state, a registered object's parent is registered and lists it *)
@@ -856,7 +878,7 @@ Theorem hierarchical roles ls s os :
   Forall lab_ok ls -> krun roles kinit ls = Some (s, os) ->
   forall c ac, get s c = Some ac -> lookup (a_tok ac) (registry s) = Some c -> a_parent ac <> rNone ->
     (a_parent ac = rGuard /\ lookup rGuard (registry s) = None) \/
-    exists pu pa, lookup (a_parent ac) (registry s) = Some pu /\ get s pu = Some pa /\ In (a_tok ac) (a_children pa).
+    exists pu pa, lookup (a_parent ac) (registry s) = Some pu /\ get s pu = Some pa /\ In (a_tok ac) (a_children pa) /\ (pu < c)%nat.
 Proof.
   intros Hsp Hl Hrun. pose proof (krun_Inv roles Hsp ls kinit s os Hl Inv_init Hrun) as (_ & HH2 & _). exact HH2.
 Qed.
